@@ -34,7 +34,7 @@ ASSUMPTIONS = [
 TRUSTED_BASE = ["pvc (own VC generator: /verif/pvc)", "z3 5.1", "python ast module", "pvc.sympy2z3 for the per-program dependency checks"]
 
 
-def native_model(shape, seed, container="set", cse=True, transcendental=False, branchy=False, passthrough=False, rename=None):
+def native_model(shape, seed, container="set", cse=True, transcendental=False, branchy=False, passthrough=False, rename=None, proactive_simplify=False, rename_assumptions=False):
     """Real compiled model vs exact sympy evaluation, by name."""
     from replay import shim
     from replay.native import repo_import
@@ -43,13 +43,13 @@ def native_model(shape, seed, container="set", cse=True, transcendental=False, b
     sc = scenarios.Scenario(n, c, k, [1], seed=seed, transcendental=transcendental, branchy=branchy, passthrough=passthrough)
     transcendental = transcendental or branchy
     if rename:
-        sc = scenarios.renamed(sc, rename, seed, unused_control=True)
+        sc = scenarios.renamed(sc, rename, seed, unused_control=True, assumptions=rename_assumptions)
         k = sc.k
     problems = []
     try:
         py = shim.install()
         ui = repo_import("formak.ui")
-        model = py.compile(sc.ui_model(ui, container), calibration_map=dict(reversed(list(sc.calibration_map.items()))), config={"common_subexpression_elimination": cse})
+        model = py.compile(sc.ui_model(ui, container, proactive_simplify=proactive_simplify), calibration_map=dict(reversed(list(sc.calibration_map.items()))), config={"common_subexpression_elimination": cse})
         from fractions import Fraction
 
         pts = [sc.point(seed), sc.point(seed + 1)]
@@ -125,17 +125,17 @@ def native_branchy(run, pid="C01"):
     # symbols spelled like CSE temporaries (_t0, _t1, ... / x0, x1, ...), one of them a declared control that no expression mentions (an
     # argument of the block that is absent from its expressions): a valid definition, must compile and evaluate by name
     tf = 0
-    for style in ("_t", "x"):
+    for style, assume in (("_t", False), ("x", False), ("_t", True)):
         for cse in (True, False):
             run.native_runs += 1
-            problems, sc = native_model((4, 1, 2), run.seed, "set", cse, rename=style)
+            problems, sc = native_model((4, 1, 2), run.seed, "set", cse, rename=style, rename_assumptions=assume)
             if problems:
                 tf += 1
-                run.findings.append(Finding(f"{pid}.py.native_temporary_like_names", "names", f"symbols named {style}0, {style}1, ...: {problems[0]}", {"language": "python", "inputs": {"shape": [4, 1, 2], "seed": run.seed, "cse": cse, "rename": style}, "model_definition": sc.describe(), "oracle_verdict": problems[:4]}, True))
+                run.findings.append(Finding(f"{pid}.py.native_temporary_like_names", "names", f"symbols named {style}0, {style}1, ...{' declared real' if assume else ''}: {problems[0]}", {"language": "python", "inputs": {"shape": [4, 1, 2], "seed": run.seed, "cse": cse, "rename": style, "rename_assumptions": assume}, "model_definition": sc.describe(), "oracle_verdict": problems[:4]}, True))
                 break
         if tf:
             break
-    run.bounded.append({"what": "real compiled model whose symbols are spelled like CSE temporaries (_t<i>, x<i>), CSE on and off", "bound": "2 spellings x 2 CSE settings x 5 calls", "failures": tf, "counted_as_proved": False})
+    run.bounded.append({"what": "real compiled model whose symbols are spelled like CSE temporaries (_t<i>, x<i>), CSE on and off", "bound": "3 spellings (_t<i>, x<i>, _t<i> declared real) x 2 CSE settings x 8 calls", "failures": tf, "counted_as_proved": False})
     pf = 0
     for cse in (True, False):
         run.native_runs += 1
@@ -144,6 +144,16 @@ def native_branchy(run, pid="C01"):
             pf += 1
             run.findings.append(Finding(f"{pid}.py.native_passthrough_program", "passthrough", problems[0], {"language": "python", "inputs": {"shape": [5, 1, 2], "seed": run.seed, "cse": cse, "passthrough": True}, "model_definition": sc.describe(), "oracle_verdict": problems[:4]}, True))
             break
+    # ui.Model(proactive_simplify=True): the definition is simplified per state BEFORE compilation; the oracle is the user's own dict
+    sf = 0
+    for cse in (True, False):
+        run.native_runs += 1
+        problems, sc = native_model((4, 1, 2), run.seed, "set", cse, proactive_simplify=True)
+        if problems:
+            sf += 1
+            run.findings.append(Finding(f"{pid}.py.native_proactive_simplify", "proactive_simplify", f"ui.Model(proactive_simplify=True): {problems[0]}", {"language": "python", "inputs": {"shape": [4, 1, 2], "seed": run.seed, "cse": cse, "proactive_simplify": True}, "model_definition": sc.describe(), "oracle_verdict": problems[:4]}, True))
+            break
+    run.bounded.append({"what": "real compiled model of a definition built with ui.Model(proactive_simplify=True) (update expressions given in shuffled order) vs the user's own expressions", "bound": "1 program x 2 CSE settings x 8 calls", "failures": sf, "counted_as_proved": False})
     run.bounded.append({"what": "real compiled model of a program in which several statements only forward an input (identity-updated states, a state set to a control / calibration value)", "bound": "1 program x 2 CSE settings x 5 calls", "failures": pf, "counted_as_proved": False})
 
 
@@ -220,7 +230,7 @@ def replay_file(payload):
     inp = payload["inputs"]
     problems = []
     for cse in ([inp["cse"]] if "cse" in inp else [True, False]):
-        p, sc = native_model(tuple(inp["shape"][:3]), inp.get("seed", 0), inp.get("container", "set"), cse, branchy=inp.get("branchy", False), passthrough=inp.get("passthrough", False), rename=inp.get("rename"))
+        p, sc = native_model(tuple(inp["shape"][:3]), inp.get("seed", 0), inp.get("container", "set"), cse, branchy=inp.get("branchy", False), passthrough=inp.get("passthrough", False), rename=inp.get("rename"), proactive_simplify=inp.get("proactive_simplify", False), rename_assumptions=inp.get("rename_assumptions", False))
         problems += p
     print("replay C01:", problems[:3] or "compiled model equals the symbolic update expressions")
     return not problems
